@@ -39,6 +39,17 @@ struct Rec<'a> {
     yaml: &'a str,
 }
 
+/// the crate's entry points with a panic turned into an error value (a panic inside the crate is data: the record then
+/// disagrees with the table and is reported, instead of the harness dying)
+fn fswo<T: serde::de::DeserializeOwned>(text: &str, o: serde_saphyr::Options) -> Result<T, serde_saphyr::Error> {
+    match std::panic::catch_unwind(std::panic::AssertUnwindSafe(|| serde_saphyr::from_str_with_options::<T>(text, o))) {
+        Ok(r) => r,
+        Err(_) => Err(<serde_saphyr::Error as serde::de::Error>::custom("PANIC inside the crate")),
+    }
+}
+fn fs0<T: serde::de::DeserializeOwned>(text: &str) -> Result<T, serde_saphyr::Error> {
+    fswo::<T>(text, serde_saphyr::Options::default())
+}
 fn opts(legacy: bool, strict: bool, noschema: bool) -> serde_saphyr::Options {
     let mut o = serde_saphyr::Options::default();
     o.legacy_octal_numbers = legacy;
@@ -63,12 +74,12 @@ fn iobs_u(v: Result<u128, serde_saphyr::Error>) -> IntObs {
 }
 macro_rules! si {
     ($t:ty, $text:expr, $o:expr) => {
-        iobs_i(serde_saphyr::from_str_with_options::<$t>($text, $o).map(|v| v as i128))
+        iobs_i(fswo::<$t>($text, $o).map(|v| v as i128))
     };
 }
 macro_rules! ui {
     ($t:ty, $text:expr, $o:expr) => {
-        iobs_u(serde_saphyr::from_str_with_options::<$t>($text, $o).map(|v| v as u128))
+        iobs_u(fswo::<$t>($text, $o).map(|v| v as u128))
     };
 }
 
@@ -134,7 +145,7 @@ pub fn run_b64(args: &Args) -> i32 {
     let mut nontrivial = 0;
     for (i, c) in cases.iter().enumerate() {
         let yaml = format!("!!binary {}\n", scalar_text(&c.s, "d"));
-        let obs = match serde_saphyr::from_str::<serde_bytes::ByteBuf>(&yaml) {
+        let obs = match fs0::<serde_bytes::ByteBuf>(&yaml) {
             Ok(b) => {
                 nontrivial += 1;
                 b.iter().map(|x| *x as i64).collect()
@@ -226,27 +237,27 @@ pub fn run(args: &Args) -> i32 {
                         ints.insert("i16", si!(i16, &text, o()));
                         ints.insert("i32", si!(i32, &text, o()));
                         ints.insert("i64", si!(i64, &text, o()));
-                        ints.insert("i128", iobs_i(serde_saphyr::from_str_with_options::<i128>(&text, o())));
+                        ints.insert("i128", iobs_i(fswo::<i128>(&text, o())));
                         ints.insert("u8", ui!(u8, &text, o()));
                         ints.insert("u16", ui!(u16, &text, o()));
                         ints.insert("u32", ui!(u32, &text, o()));
                         ints.insert("u64", ui!(u64, &text, o()));
-                        ints.insert("u128", iobs_u(serde_saphyr::from_str_with_options::<u128>(&text, o())));
+                        ints.insert("u128", iobs_u(fswo::<u128>(&text, o())));
                     }
-                    let boolv = match serde_saphyr::from_str_with_options::<bool>(&text, opts(legacy, strict, noschema)) {
+                    let boolv = match fswo::<bool>(&text, opts(legacy, strict, noschema)) {
                         Ok(true) => "true".to_string(),
                         Ok(false) => "false".to_string(),
                         Err(_) => "none".to_string(),
                     };
-                    let strv = match serde_saphyr::from_str_with_options::<String>(&text, opts(legacy, strict, noschema)) {
+                    let strv = match fswo::<String>(&text, opts(legacy, strict, noschema)) {
                         Ok(s) => N::leaf("S", &s),
                         Err(e) => N::errc(&classify(&e)),
                     };
-                    let anyv = match serde_saphyr::from_str_with_options::<Tree>(&text, opts(legacy, strict, noschema)) {
+                    let anyv = match fswo::<Tree>(&text, opts(legacy, strict, noschema)) {
                         Ok(Tree(n)) => n,
                         Err(e) => N::errc(&classify(&e)),
                     };
-                    let f64v = match serde_saphyr::from_str_with_options::<f64>(&text, opts(legacy, strict, noschema)) {
+                    let f64v = match fswo::<f64>(&text, opts(legacy, strict, noschema)) {
                         Ok(x) if x.is_nan() => "nan".to_string(),
                         Ok(x) => format!("{:016x}", x.to_bits()),
                         Err(_) => "err".to_string(),
